@@ -124,7 +124,7 @@ def obligations(tier):
         obs.append({"name": name, "module": M, "fn": "b_assign", "kwargs": kw, "timeout": timeout if q else timeout * 5, "abstract_crc": False})
 
     if q:
-        cfgs = [(1, 2), (2, 2), (3, 2)]
+        cfgs = [(1, 2), (2, 2), (3, 2), (2, 3)]
         maxc = 2
     else:
         cfgs = [(1, 2), (2, 2), (3, 2), (2, 3), (3, 3), (4, 2)]
@@ -135,14 +135,15 @@ def obligations(tier):
         for counts in itertools.product(range(maxc + 1), repeat=nt):
             if nm == 4 and sum(counts) > 4:
                 continue
-            if nt == 3 and sum(counts) > 5:
+            if nt == 3 and sum(counts) > (3 if q else 5):
                 continue
             for pi, perm in enumerate(use):
                 if pi > 0 and sum(counts) < 2:
                     continue
                 add("members=%d topics=%d partitions=%r perm=%r" % (nm, nt, counts, perm), nmembers=nm, ntopics=nt, counts=list(counts), perm=list(perm))
-        for counts in ([(3, 2)] if q else [(3, 2), (4, 4), (1, 4)]):
-            if nm > 1 and nt == 2:
+        idc = {2: [(3, 2), (1, 1), (2, 1), (1, 3)], 3: [(1, 1, 1), (2, 1, 1)]} if q else {2: [(3, 2), (1, 1), (2, 1), (1, 3), (4, 4), (1, 4), (3, 3)], 3: [(1, 1, 1), (2, 1, 1), (2, 2, 1)]}
+        for counts in idc.get(nt, []):
+            if nm > 1:
                 add("identical members=%d partitions=%r" % (nm, counts), nmembers=nm, ntopics=nt, counts=list(counts), perm=list(perms[-1]), identical=True)
     return obs
 
